@@ -47,12 +47,18 @@ func spkUniverseFor(prop string, thorough bool) *spkUniverse {
 	advB := bgpAdv("adv-b", 24, 64, 100, []string{"65000:2", "large:1:2:3"}, []string{"p1"}, nil, []string{"pool-a"})
 	advC := bgpAdv("adv-c", 32, 128, 0, nil, []string{"p2"}, msel("rack", "a"), nil)
 	advE := bgpAdv("adv-e", 32, 128, 0, nil, []string{"p1"}, nil, nil)
+	advE2 := bgpAdv("adv-e2", 32, 128, 0, []string{"65000:9"}, []string{"p1"}, nil, nil)
+	advApa := bgpAdv("adv-a-pool-a", 32, 128, 0, []string{"65000:1"}, nil, nil, []string{"pool-a"})
+	advEpb := bgpAdv("adv-e-pool-b", 32, 128, 0, nil, []string{"p1"}, nil, []string{"pool-b"})
+	advCpc := bgpAdv("adv-c-pool-c", 32, 128, 0, nil, []string{"p2"}, nil, []string{"pool-c"})
+	poolC := spkPool("pool-c", "10.0.3.0/24")
 	advD := bgpAdv("adv-d", 32, 128, 0, nil, nil, msel("rack", "b"), nil)
 	peers := []metallbv1beta2.BGPPeer{p1, p2}
 	u := &spkUniverse{Name: prop, Svcs: []string{"s1", "s2"}, Ifs: []string{"eth0", "eth1"}, AddrUniverse: []string{"10.0.1.1", "10.0.1.9", "fc00:1::1", "10.0.2.7"}}
 	u.NodeVars = map[string][]spkNodeVariant{
 		spkMe: {{"rack-a", map[string]string{"rack": "a"}, false}, {"rack-a-unavailable", map[string]string{"rack": "a"}, true},
-			{"rack-a-excluded", map[string]string{"rack": "a", v1.LabelNodeExcludeBalancers: ""}, false}, {"rack-c", map[string]string{"rack": "c"}, false}},
+			{"rack-a-excluded", map[string]string{"rack": "a", v1.LabelNodeExcludeBalancers: ""}, false}, {"rack-c", map[string]string{"rack": "c"}, false},
+			{"rack-a-excluded-unavailable", map[string]string{"rack": "a", v1.LabelNodeExcludeBalancers: ""}, true}},
 		"other": {{"rack-b", map[string]string{"rack": "b"}, false}, {"rack-b-unavailable", map[string]string{"rack": "b"}, true}},
 	}
 	u.SvcVars = []spkSvcVariant{
@@ -84,13 +90,20 @@ func spkUniverseFor(prop string, thorough bool) *spkUniverse {
 			{Name: "bgp-d-other-node", Pools: []metallbv1beta1.IPAddressPool{poolA}, BGPAdvs: []metallbv1beta1.BGPAdvertisement{advD}, Peers: peers},
 			{Name: "bgp-a-p1-only", Pools: []metallbv1beta1.IPAddressPool{poolA, poolB}, BGPAdvs: []metallbv1beta1.BGPAdvertisement{advA}, Peers: peers[:1]},
 			{Name: "no-advs", Pools: []metallbv1beta1.IPAddressPool{poolA, poolB}, Peers: peers},
+			{Name: "bgp-a+e+c-unrestricted-and-two-peer-restricted", Pools: []metallbv1beta1.IPAddressPool{poolA, poolB}, BGPAdvs: []metallbv1beta1.BGPAdvertisement{advA, advE, advC}, Peers: peers},
+			{Name: "bgp-e+c-but-peer-p1-deconfigured", Pools: []metallbv1beta1.IPAddressPool{poolA, poolB}, BGPAdvs: []metallbv1beta1.BGPAdvertisement{advE2, advC}, Peers: peers[1:]},
+			{Name: "bgp-e2+c", Pools: []metallbv1beta1.IPAddressPool{poolA, poolB}, BGPAdvs: []metallbv1beta1.BGPAdvertisement{advE2, advC}, Peers: peers},
+			{Name: "pool-restricted-advertisements", Pools: []metallbv1beta1.IPAddressPool{poolA, poolB, poolC}, BGPAdvs: []metallbv1beta1.BGPAdvertisement{advApa, advEpb, advCpc}, Peers: peers},
 			{Name: "bgp-e+c-same-attributes-different-peers", Pools: []metallbv1beta1.IPAddressPool{poolA, poolB}, BGPAdvs: []metallbv1beta1.BGPAdvertisement{advE, advC}, Peers: peers},
 		}
 		u.SvcVars = []spkSvcVariant{u.SvcVars[0], u.SvcVars[1], u.SvcVars[2], u.SvcVars[3], u.SvcVars[4],
-			{"lb-c", v1.ServiceTypeLoadBalancer, false, []string{"10.0.1.200"}}, {"lb-poolb", v1.ServiceTypeLoadBalancer, false, []string{"10.0.2.7"}}}
+			{"lb-c", v1.ServiceTypeLoadBalancer, false, []string{"10.0.1.200"}}, {"lb-poolb", v1.ServiceTypeLoadBalancer, false, []string{"10.0.2.7"}},
+			{"lb-poolc", v1.ServiceTypeLoadBalancer, false, []string{"10.0.3.7"}}}
+		u.Svcs = []string{"s1", "s2", "s3", "s4"}
+		u.SvcVarsFor = map[int][]int{2: {1, 6}, 3: {1, 7}}
 		u.Configs = append(u.Configs, spkConfig{Name: "bgp-pool-a-only+pool-b-unadvertised", Pools: []metallbv1beta1.IPAddressPool{poolA, poolB}, BGPAdvs: []metallbv1beta1.BGPAdvertisement{advB}, Peers: peers})
 		u.EPVars = u.EPVars[:3]
-		u.NodeVars[spkMe] = []spkNodeVariant{u.NodeVars[spkMe][0], u.NodeVars[spkMe][3], u.NodeVars[spkMe][1]}
+		u.NodeVars[spkMe] = []spkNodeVariant{u.NodeVars[spkMe][0], u.NodeVars[spkMe][3], u.NodeVars[spkMe][1], u.NodeVars[spkMe][2], u.NodeVars[spkMe][4]}
 		u.NodeVars["other"] = u.NodeVars["other"][:1]
 		return u
 	}
@@ -108,7 +121,7 @@ func spkUniverseFor(prop string, thorough bool) *spkUniverse {
 	}
 	if !thorough {
 		u.SvcVars = u.SvcVars[:7]
-		u.NodeVars[spkMe] = u.NodeVars[spkMe][:3]
+		u.NodeVars[spkMe] = []spkNodeVariant{u.NodeVars[spkMe][0], u.NodeVars[spkMe][1], u.NodeVars[spkMe][2], u.NodeVars[spkMe][4]}
 	}
 	return u
 }
@@ -234,7 +247,7 @@ func (s *spkSys) refBGP() *refBGP {
 				advs = append(advs, a)
 			}
 		}
-		if len(advs) == 0 || me.Unavailable || excluded {
+		if len(advs) == 0 || me.Unavailable || (excluded && !s.u.IgnoreExcludeLB) {
 			continue
 		}
 		eps := s.epsOf(n)
@@ -303,7 +316,9 @@ func (s *spkSys) refBGP() *refBGP {
 }
 
 type spkCase struct {
-	Preload  bool            `json:"preloaded_service"`
+	Preload  int             `json:"preloaded_services"`
+	Rich     bool            `json:"rich_initial_state"`
+	IgnoreEx bool            `json:"ignore_exclude_lb"`
 	Prop     string          `json:"prop"`
 	Thorough bool            `json:"thorough_universe"`
 	History  []verifrt.Event `json:"history"`
@@ -318,7 +333,7 @@ type spkOracle struct {
 }
 
 func (o *spkOracle) mkCase(hist []verifrt.Event) spkCase {
-	c := spkCase{Prop: o.prop, Thorough: o.thorough, History: hist, Preload: o.u.Preload}
+	c := spkCase{Prop: o.prop, Thorough: o.thorough, History: hist, Preload: o.u.Preload, IgnoreEx: o.u.IgnoreExcludeLB, Rich: o.u.Rich != nil}
 	var nodeNames []string
 	for n := range o.u.NodeVars {
 		nodeNames = append(nodeNames, n)
@@ -393,14 +408,24 @@ func (o *spkOracle) after(sys verifrt.System, hist []verifrt.Event, ev verifrt.E
 		if live != fresh {
 			x, y := firstDiff(live, fresh)
 			kind := strings.Fields(x + " " + y + " ?")[0]
-			what := "differs"
-			if x != "" && (y == "" || strings.Fields(y)[0] != strings.Fields(x)[0] || (kind != "answer" && !strings.HasPrefix(y, strings.Join(strings.Fields(x)[:2], " ")))) {
-				what = "stale-extra"
-			} else if x == "" {
-				what = "missing"
+			keyOf := func(l string) string {
+				f := strings.Fields(l)
+				if len(f) >= 2 {
+					return strings.SplitN(f[0]+" "+f[1], "=", 2)[0]
+				}
+				return l
 			}
-			if kind == "answer" {
-				what = "differs:" + strings.SplitN(x, "=", 2)[1] + "-vs-fresh:" + strings.SplitN(y, "=", 2)[1]
+			what := "differs"
+			switch {
+			case x == "" || (y != "" && keyOf(x) != keyOf(y) && y < x):
+				what = "missing"
+				kind = strings.Fields(y + " ?")[0]
+			case y == "" || keyOf(x) != keyOf(y):
+				what = "stale-extra"
+			}
+			if kind == "answer" && what == "differs" {
+				vx, vy := strings.SplitN(x+"=", "=", 3), strings.SplitN(y+"=", "=", 3)
+				what = "differs:" + vx[1] + "-vs-fresh:" + vy[1]
 			}
 			o.violate(hist, fmt.Sprintf("C09 announcements differ from a fresh speaker kind=%s %s after=%s", kind, what, s.lastUser),
 				fmt.Sprintf("live has %q, fresh speaker has %q\n--- live:\n%s--- fresh:\n%s", x, y, live, fresh))
@@ -483,7 +508,15 @@ func runSpk(t *testing.T, prop string) {
 			t.Fatal(err)
 		}
 		u := spkUniverseFor(prop, c.Thorough)
-		u.Preload = c.Preload
+		u.Preload, u.IgnoreExcludeLB = c.Preload, c.IgnoreEx
+		if c.Rich {
+			u.Rich = [][2]int{{0, 3}, {1, 2}, {2, 6}, {3, 7}}
+			for i, cc := range u.Configs {
+				if cc.Name == "pool-restricted-advertisements" {
+					u.InitCfg = i
+				}
+			}
+		}
 		o := &spkOracle{prop: prop, thorough: c.Thorough, u: u, res: res}
 		b := &verifrt.BFS{New: func() verifrt.System { return newSpkSys(u) }, After: o.after, Res: res}
 		b.Replay(c.History)
@@ -491,9 +524,27 @@ func runSpk(t *testing.T, prop string) {
 		return
 	}
 	work := 0
-	for _, preload := range []bool{false, true} {
+	type startT struct {
+		preload int
+		ignore  bool
+	}
+	starts := []startT{{0, false}, {1, false}, {2, false}, {1, true}, {-1, false}}
+	for _, st := range starts {
 		u := spkUniverseFor(prop, thorough)
-		u.Preload = preload
+		u.Preload, u.IgnoreExcludeLB = st.preload, st.ignore
+		if st.preload == -1 {
+			if prop != "C05" {
+				continue
+			}
+			// a rich non-initial state: four announced services over three pools with pool-restricted advertisements
+			u.Preload = 0
+			u.Rich = [][2]int{{0, 3}, {1, 2}, {2, 6}, {3, 7}}
+			for i, c := range u.Configs {
+				if c.Name == "pool-restricted-advertisements" {
+					u.InitCfg = i
+				}
+			}
+		}
 		o := &spkOracle{prop: prop, thorough: thorough, u: u, res: res}
 		// initial settling in canonical order, then one work item per first user event
 		init := newSpkSys(u)
